@@ -133,7 +133,7 @@ def gen_case(rng, supervised):
       if supervised:
         est = gen.SDML_Supervised(balance_param=balance, sparsity_param=alpha, prior=prior_arg, n_constraints=n_c, random_state=seed).fit(X.copy(), y.copy())
       else:
-        est = gen.SDML(balance_param=balance, sparsity_param=alpha, prior=prior_arg, random_state=seed).fit(pairs.copy(), lab.copy())
+        est, ev['how'] = gen.fit_tuples_via(rng, gen.SDML(balance_param=balance, sparsity_param=alpha, prior=prior_arg, random_state=seed), X, idx, lab)
       L = np.asarray(est.components_)
       M = L.T.dot(L)
       ev['L'] = dym(L)
